@@ -957,6 +957,7 @@ func (d *Data) SplitSupervoxel(v dvid.VersionID, svlabel, splitlabel, remainlabe
 		err = fmt.Errorf("unable to split supervoxel %d for data %q: missing label index %d", svlabel, d.DataName(), label)
 		return
 	}
+	dvid.VerifYield("labelmap.SplitSupervoxel")
 	svSize := idx.GetSupervoxelCount(svlabel)
 	if splitSize > svSize {
 		err = fmt.Errorf("split volume of %d > %d of supervoxel %d", splitSize, svSize, svlabel)
